@@ -42,6 +42,9 @@ func answerAsk(d *Driver, kind string, q M) any {
 		if err != nil {
 			return nil
 		}
+		if sanHasTimeValue(c) {
+			d.SawUnmodelled = true
+		}
 		return certView(c)
 	case "x509CheckSig":
 		c, err := x509.ParseCertificate(unhx(q["der"].(string)))
@@ -98,12 +101,6 @@ func answerAsk(d *Driver, kind string, q M) any {
 			return nil
 		}
 		return M{"nat": int64(h)}
-	case "sanView":
-		c, err := x509.ParseCertificate(unhx(q["der"].(string)))
-		if err != nil {
-			return nil
-		}
-		return M{"sans": sanView(c)}
 	case "safetyNet":
 		return safetyNetView(unhx(q["raw"].(string)))
 	case "jwsHeaders":
@@ -384,4 +381,33 @@ func safetyNetView(raw []byte) any {
 	out["claimsOK"] = true
 	out["nonce"] = hx(claims.Nonce)
 	return out
+}
+
+// sanHasTimeValue: does a SAN directory name of the certificate carry a UTCTime / GeneralizedTime attribute value?
+func sanHasTimeValue(c *x509.Certificate) bool {
+	found := false
+	for _, ext := range c.Extensions {
+		if !ext.Id.Equal(oidSANExt) {
+			continue
+		}
+		var walk func(b []byte, depth int)
+		walk = func(b []byte, depth int) {
+			for len(b) > 0 && depth < 8 {
+				var rv asn1.RawValue
+				rest, err := asn1.Unmarshal(b, &rv)
+				if err != nil {
+					return
+				}
+				if rv.Class == 0 && !rv.IsCompound && (rv.Tag == 23 || rv.Tag == 24) {
+					found = true
+				}
+				if rv.IsCompound {
+					walk(rv.Bytes, depth+1)
+				}
+				b = rest
+			}
+		}
+		walk(ext.Value, 0)
+	}
+	return found
 }
